@@ -314,6 +314,25 @@ class LawIndex:
                     self.assoc.append((i, j))
 
 
+def and_chain(q):
+    """operands of a pure conjunction of atoms (any nesting of &&), or None"""
+    if q["op"] in ATOM_OPS:
+        return [q]
+    if q["op"] != "and":
+        return None
+    l, r = and_chain(q["l"]), and_chain(q["r"])
+    return (l + r) if (l is not None and r is not None) else None
+
+
+def check_chain(q, code_i, model_i, mk, i):
+    """'A && B && C ...' over plain terms matches only via pairwise DIFFERENT tags: the model's answer for such a chain is
+    exactly "there are that many different tags of one group, one per operand"; the code may not match where it says no."""
+    ch = and_chain(q)
+    if ch is not None and len(ch) >= 3 and code_i and not model_i:
+        mk("distinct", "and-distinct-tags:chain%d" % len(ch),
+           "a conjunction of %d terms matches although there are no %d different tags, one per term" % (len(ch), len(ch)), {"ab": i})
+
+
 def check_laws(li, code, nodw, mk):
     """Laws of the statement on the code's own booleans.  mk(kind, key, text, indices) records a problem."""
     for i, il, ir in li.ors:
@@ -419,6 +438,8 @@ def _gen_worker(job):
                     if len(out["drift"]) < 5:
                         out["drift"].append({"hed": s, "query": texts[i], "model": e, "code": c})
         check_laws(li, code, nodw, mk)
+        for i, q in enumerate(queries):
+            check_chain(q, code[i], exp[i], mk, i)
         # the same annotation with siblings in another order: same answers (and the model's answers for it)
         if tr["n"] > 1:
             par2, lab2, perm = sibling_shuffle(tr["par"], tr["lab"], rng)
@@ -487,6 +508,8 @@ def _deep_worker(job):
                     out["drift_n"] += 1
                     if len(out["drift"]) < 5:
                         out["drift"].append({"hed": s, "query": texts[i], "model": e, "code": cv})
+        for i, q in enumerate(c["qs"]):
+            check_chain(q, code[i], v["res"][i], mk, i)
         L = c["law"]
         if L:
             a, b, cc, o, ab, ba, l3, r3 = [x - 1 for x in L]
